@@ -49,7 +49,7 @@ WRAPS := socket socketpair bind listen accept accept4 connect getsockname getpee
   shutdown read write writev send recv sendmsg recvmsg close dup dup2 fcntl pipe pipe2 poll epoll_create \
   epoll_create1 inotify_init inotify_init1 clock_gettime gettimeofday time nanosleep usleep getrandom \
   getuid geteuid getgid getegid getpid getpwnam_r getpwuid_r getpwnam getpwuid getgrnam_r getgrgid_r getgrnam \
-  getgrouplist fork waitpid kill setrlimit prlimit sd_uid_get_seats sd_journal_stream_fd sd_notify sd_listen_fds
+  getgrouplist fork waitpid kill setrlimit prlimit sd_uid_get_seats sd_journal_stream_fd sd_notify sd_listen_fds _dbus_spawn_async_with_babysitter
 # libdbus' platform thread layer: the seam of the serialising thread scheduler (sim/sched), simlib only
 THREAD_WRAPS := _dbus_platform_cmutex_lock _dbus_platform_cmutex_unlock _dbus_platform_rmutex_lock _dbus_platform_rmutex_unlock \
   _dbus_platform_condvar_wait _dbus_platform_condvar_wait_timeout _dbus_platform_condvar_wake_one
